@@ -120,6 +120,20 @@ def check(rep, an, tier):
                 fit = [c for c in cons if "l2_eps" in R.closure_deps(res, c)]
                 for c in fit:
                     deps = R.closure_deps(res, c)
+                    # the requested tolerance bounds the EUCLIDEAN size of the weighted residual (the quantity the default fit minimises):
+                    # a bound on the largest channel (norm_inf / max) admits residuals √F times larger, a bound on norm1 fewer
+                    for side in (c.tag("lhs"), c.tag("rhs")):
+                        at = side.flat().tag("atom") if side is not None else None
+                        if not at or side is None or "l2_eps" in R.closure_deps(res, side):
+                            continue
+                        if at[0] in ("norm_inf", "max", "norm1"):
+                            rep.violated("R-FLOW", "tolerance bounds the Euclidean norm of the weighted residual", where=F.where_po(po),
+                                         construct=norm_text(c.tag("node"))[:90], entry=entry, config=res.config,
+                                         msg=f"the fit-quality constraint bounds `{at[0]}` of the residual by l2_eps: with F channels the Euclidean "
+                                             f"miss of the returned fit can reach √F·l2_eps (norm_inf / max) — not the requested tolerance")
+                        elif at[0] in ("norm2", "sum_squares", "norm_fro"):
+                            rep.holds("R-FLOW", "tolerance bounds the Euclidean norm of the weighted residual", where=F.where_po(po),
+                                      construct=norm_text(c.tag("node"))[:90], entry=entry, config=res.config)
                     for o in sorted(need):
                         rep.check("R-FLOW", f"{o} → fit-quality constraint", o in deps, where=F.where_po(po),
                                   construct=f"{o} → {norm_text(c.tag('node'))[:70]}", entry=entry, config=res.config,
